@@ -260,7 +260,8 @@ def digest_result(r, ny, nx):
     if isinstance(r, xr.Dataset):
         parts = {n: digest_result(r[n], ny, nx) for n in sorted(r.data_vars)}
         px = ["|".join(parts[n]["px"][i] for n in parts) for i in range(len(next(iter(parts.values()))["px"]))]
-        return {"px": px, "dims": [f"{n}:{','.join(parts[n]['dims'])}" for n in parts], "dtype": ",".join(f"{n}:{parts[n]['dtype']}" for n in parts),
+        return {"px": px, "dims": [f"{n}:{','.join(parts[n]['dims'])}" for n in parts], "dimsets": [f"{n}:{','.join(sorted(parts[n]['dims']))}" for n in parts],
+                "dtype": ",".join(f"{n}:{parts[n]['dtype']}" for n in parts),
                 "adtype": ",".join(f"{n}:{parts[n]['adtype']}" for n in parts), "coords": next(iter(parts.values()))["coords"]}
     adtype = str(r.dtype)  # what the (possibly lazy) object announces before anything is computed
     r = r.compute() if hasattr(r.data, "compute") else r
@@ -271,7 +272,7 @@ def digest_result(r, ny, nx):
         px = [hashlib.md5(np.ascontiguousarray(a[i, j]).tobytes()).hexdigest()[:12] for i in range(a.shape[0]) for j in range(a.shape[1])]
     else:
         px = [hashlib.md5(np.ascontiguousarray(np.asarray(r)).tobytes()).hexdigest()[:12]]
-    return {"px": px, "dims": dims, "dtype": str(r.dtype), "adtype": adtype, "coords": coords}
+    return {"px": px, "dims": dims, "dimsets": sorted(dims), "dtype": str(r.dtype), "adtype": adtype, "coords": coords}
 
 
 def blocked_cases(rep, quick, seed):
